@@ -136,7 +136,7 @@ Theorem C18_message_restating_noop : forall lib dflt lvl leafv fg p text e n v r
   slookup n p = Some (PRef r) ->
   (forall t, lib (match v with Some v' => v' | None => dflt end) = Some t ->
      slookup (upper n) (t_messages t) = Some r /\
-     (forall st, parse_structure t r = Ok st -> msh_admission t lvl (upper n) st = Ok tt)) ->
+     (forall st, parse_structure t r = Ok st -> msh_acceptance t lvl (upper n) st = Ok tt)) ->
   parse_message_prof_gen lib dflt lvl leafv fg (Some p) text = parse_message_prof_gen lib dflt lvl leafv fg None text.
 Proof. exact parse_message_prof_restated. Qed.
 Print Assumptions C18_message_restating_noop.
@@ -144,8 +144,8 @@ Print Assumptions C18_message_restating_noop.
 Example C18_restating_premise_v2_5 :
   forallb (fun p : str * sref =>
              match parse_structure Gen.Tables_v2_5.tables (snd p) with
-             | Ok st => is_ok (msh_admission Gen.Tables_v2_5.tables STRICT (fst p) st) &&
-                        is_ok (msh_admission Gen.Tables_v2_5.tables TOLERANT (fst p) st)
+             | Ok st => is_ok (msh_acceptance Gen.Tables_v2_5.tables STRICT (fst p) st) &&
+                        is_ok (msh_acceptance Gen.Tables_v2_5.tables TOLERANT (fst p) st)
              | Err _ => true
              end) (t_messages Gen.Tables_v2_5.tables) = true.
 Proof. exact restating_premise_v2_5. Qed.
